@@ -1,2 +1,2 @@
-/-! stub: replaced by the owner of the m_memseq driver (see tools/AGENT_GUIDE.md) -/
-def main : IO Unit := IO.println "bad-op"
+import DaliVerif.Drivers.MemSeqDrv
+def main : IO Unit := DaliVerif.MemSeqDrv.main
